@@ -28,11 +28,15 @@ type ItemsQuery struct {
 
 // TokenReader implements xmlstream.Marshaler.
 func (q ItemsQuery) TokenReader() xml.TokenReader {
+	return q.wrap(nil)
+}
+
+func (q ItemsQuery) wrap(payload xml.TokenReader) xml.TokenReader {
 	start := xml.StartElement{Name: xml.Name{Space: NSItems, Local: "query"}}
 	if q.Node != "" {
 		start.Attr = append(start.Attr, xml.Attr{Name: xml.Name{Local: "node"}, Value: q.Node})
 	}
-	return xmlstream.Wrap(nil, start)
+	return xmlstream.Wrap(payload, start)
 }
 
 // WriteXML implements xmlstream.WriterTo.
@@ -48,6 +52,8 @@ type ItemIter struct {
 	err     error
 	ctx     context.Context
 	session *xmpp.Session
+	node    string
+	iq      stanza.IQ
 }
 
 // Next returns true if there are more items to decode.
@@ -85,8 +91,10 @@ func (i *ItemIter) Next() bool {
 	if i.err != nil {
 		return false
 	}
+	// Ask the entity we queried in the first place for the items after the last
+	// one of this page.
 	// TODO: set context based on a deadline?
-	page := FetchItems(i.ctx, i.current, i.session)
+	page := fetchItems(i.ctx, i.node, i.iq, i.session, nextPage)
 	if page.err != nil {
 		i.err = page.err
 		return false
@@ -135,17 +143,28 @@ func FetchItems(ctx context.Context, item items.Item, s *xmpp.Session) *ItemIter
 // FetchItemsIQ is like FetchItems but it allows you to customize the IQ.
 // Changing the type of the provided IQ has no effect.
 func FetchItemsIQ(ctx context.Context, node string, iq stanza.IQ, s *xmpp.Session) *ItemIter {
+	return fetchItems(ctx, node, iq, s, nil)
+}
+
+// fetchItems queries for a page of items: the first one if page is nil.
+func fetchItems(ctx context.Context, node string, iq stanza.IQ, s *xmpp.Session, page *paging.RequestNext) *ItemIter {
 	if iq.Type != stanza.GetIQ {
 		iq.Type = stanza.GetIQ
 	}
 	query := ItemsQuery{
 		Node: node,
 	}
-	iter, _, err := s.IterIQ(ctx, iq.Wrap(query.TokenReader()))
+	var set xml.TokenReader
+	if page != nil {
+		// Every page is its own request.
+		iq.ID = ""
+		set = page.TokenReader()
+	}
+	iter, _, err := s.IterIQ(ctx, iq.Wrap(query.wrap(set)))
 	if err != nil {
 		return &ItemIter{err: err}
 	}
-	return &ItemIter{iter: paging.WrapIter(iter, defPageSize), ctx: ctx, session: s}
+	return &ItemIter{iter: paging.WrapIter(iter, defPageSize), ctx: ctx, session: s, node: node, iq: iq}
 }
 
 // ErrSkipItem is used as a return value from WalkItemFuncs to indicate that the
